@@ -302,7 +302,7 @@ func c20Child(args []string) int {
 	impatient := false
 	patience := func(d time.Duration) time.Duration {
 		if impatient {
-			return 200 * time.Millisecond
+			return 50 * time.Millisecond
 		}
 		return d
 	}
@@ -942,6 +942,12 @@ func genC20(r *hx.R, tier string, scratch string) (*hx.Suite, error) {
 		}
 	}
 	var hists []*c20Hist
+	for _, h := range c20Scripted(scratch) {
+		if err := h.materialise(); err != nil {
+			return nil, err
+		}
+		hists = append(hists, h)
+	}
 	for i := 0; i < nSingle+nDefault; i++ {
 		kind := "single"
 		if i >= nSingle {
